@@ -165,3 +165,234 @@ Theorem volume_clamped v :
   N.min v volume_max <= 100 /\ N.min v volume_max = (if v <=? 100 then v else 100) /\
   (v <= 100 -> N.min v volume_max = v).
 Proof. change volume_max with 100. destruct (v <=? 100) eqn:E; repeat split; lia. Qed.
+
+(* ================= every argument of every command carries the documented meaning ================= *)
+
+(* the token MPD's tokenizer is to produce for an argument (shown in [tokenize_request] below) *)
+Definition arg_token (a : arg) : bytes :=
+  match a with
+  | AStr s => s
+  | ARaw r => r
+  | AFilter f => filter_expr f
+  end.
+
+Lemma sat_string s : sat (MString s) s.
+Proof. apply beq_refl. Qed.
+Lemma sat_keyword k : sat (MKeyword k) k.
+Proof. apply beq_refl. Qed.
+Lemma sat_tag t : sat (MTag t) (tag_as_str t).
+Proof. apply beq_refl. Qed.
+Lemma sat_filter f : sat (MFilter f) (filter_expr f).
+Proof. apply beq_refl. Qed.
+Lemma sat_number n : sat (MNumber n) (render_dec n).
+Proof. apply number_is_render_dec. Qed.
+Lemma sat_bool x : sat (MBool x) (if x then [49] else [48]).
+Proof. destruct x; reflexivity. Qed.
+Lemma sat_positions lo hi : sat (MPositions lo hi) (render_range (song_range_new lo hi)).
+Proof. apply range_denotes. Qed.
+Lemma sat_position p : sat (MPosition p) (render_range (song_range_new (Included p) (Included p))).
+Proof. apply position_denotes. Qed.
+Lemma sat_relative p : sat (MRelative p) (render_pos_or_rel p).
+Proof. destruct p; cbn [sat satb render_pos_or_rel app]; apply number_is_render_dec. Qed.
+Lemma sat_volume v : sat (MNumber (if v <=? 100 then v else 100)) (render_dec (N.min v volume_max)).
+Proof. destruct (volume_clamped v) as (_ & -> & _). apply sat_number. Qed.
+
+(* the enum spellings regenerated from the match tables are the documented keywords *)
+Lemma single_spellings_documented :
+  single_str SingleDisabled = b "0" /\ single_str SingleEnabled = b "1" /\ single_str SingleOneshot = b "oneshot".
+Proof. repeat split; vm_compute; reflexivity. Qed.
+Lemma replay_gain_spellings_documented :
+  rg_str RgOff = b "off" /\ rg_str RgTrack = b "track" /\ rg_str RgAlbum = b "album" /\ rg_str RgAuto = b "auto".
+Proof. repeat split; vm_compute; reflexivity. Qed.
+
+(* ================= durations: the f64 path on exact integers ================= *)
+
+Lemma div_rne_spec n d : 0 < d ->
+  2 * (div_rne n d * d) <= 2 * n + d /\ 2 * n <= 2 * (div_rne n d * d) + d.
+Proof.
+  intros Hd. unfold div_rne. cbv zeta.
+  pose proof (N.div_mod n d ltac:(lia)) as E. pose proof (N.mod_upper_bound n d ltac:(lia)) as R.
+  rewrite (N.mul_comm d (n / d)) in E.
+  remember (n / d) as q. remember (n mod d) as r.
+  assert (S1 : (q + 1) * d = q * d + d) by lia.
+  remember (q * d) as qd.
+  destruct (2 * r ?= d) eqn:C.
+  - rewrite N.compare_eq_iff in C. destruct (N.even q); [rewrite <- Heqqd | rewrite S1]; lia.
+  - rewrite N.compare_lt_iff in C. rewrite <- Heqqd. lia.
+  - rewrite N.compare_gt_iff in C. rewrite S1. lia.
+Qed.
+
+Definition E53 : N := 2 ^ 53.
+
+(* relative error of the nearest double: |M/2^K - a/c| <= (a/c) / 2^53, without divisions *)
+Lemma rn53_err a c : 0 < c ->
+  let r := rn53 a c in
+  E53 * (fst r * c) <= (E53 + 1) * (a * 2 ^ snd r) /\ (E53 - 1) * (a * 2 ^ snd r) <= E53 * (fst r * c).
+Proof.
+  intros Hc. unfold rn53. cbv zeta. destruct (a =? 0) eqn:Ea.
+  - apply N.eqb_eq in Ea. subst a. cbn [fst snd]. lia.
+  - apply N.eqb_neq in Ea.
+    destruct (N.log2_spec a ltac:(lia)) as [La1 La2]. destruct (N.log2_spec c Hc) as [Lc1 Lc2].
+    remember (N.log2 a) as la. remember (N.log2 c) as lc.
+    rewrite N.pow_succ_r' in La2, Lc2.
+    assert (P1 : 2 ^ (52 + lc) = 2 ^ 52 * 2 ^ lc) by (apply N.pow_add_r).
+    assert (P2 : 2 ^ (53 + lc) = 2 * (2 ^ 52 * 2 ^ lc)).
+    { replace (53 + lc) with (N.succ (52 + lc)) by lia. rewrite N.pow_succ_r', P1. reflexivity. }
+    remember (2 ^ la) as pa. remember (2 ^ lc) as pc.
+    assert (Hpa : 0 < pa) by (subst pa; pose proof (N.pow_nonzero 2 la ltac:(lia)); lia).
+    assert (Hpc : 0 < pc) by (subst pc; pose proof (N.pow_nonzero 2 lc ltac:(lia)); lia).
+    set (d := c * pa). set (n0 := a * 2 ^ (52 + lc)).
+    assert (Hd : 0 < d) by (unfold d; apply N.mul_pos_pos; assumption).
+    (* 2^52 * d <= 2 * n0 *)
+    assert (B : 2 ^ 52 * d <= 2 * n0).
+    { unfold d, n0. rewrite P1.
+      assert (X1 : c * pa <= 2 * pc * pa) by (apply N.mul_le_mono_r; lia).
+      assert (X2 : pa * (2 ^ 52 * pc) <= a * (2 ^ 52 * pc)) by (apply N.mul_le_mono_r; lia).
+      assert (X3 : 2 ^ 52 * (c * pa) <= 2 ^ 52 * (2 * pc * pa)) by (apply N.mul_le_mono_l; exact X1).
+      replace (2 ^ 52 * (2 * pc * pa)) with (2 * (pa * (2 ^ 52 * pc))) in X3 by lia. lia. }
+    destruct (n0 <? 2 ^ 52 * d) eqn:Cmp; cbn [fst snd].
+    + destruct (div_rne_spec (2 * n0) d Hd) as [D1 D2].
+      remember (div_rne (2 * n0) d) as m.
+      replace (m * pa * c) with (m * d) by (unfold d; lia).
+      replace (a * 2 ^ (53 + lc)) with (2 * n0) by (unfold n0; rewrite P1, P2; lia).
+      remember (m * d) as md. unfold E53. lia.
+    + apply N.ltb_ge in Cmp.
+      destruct (div_rne_spec n0 d Hd) as [D1 D2].
+      remember (div_rne n0 d) as m.
+      replace (m * pa * c) with (m * d) by (unfold d; lia).
+      fold n0. remember (m * d) as md. unfold E53. lia.
+Qed.
+
+(* composition of relative errors, products only *)
+Lemma compose_upper e ep G Ms Mq M P1 P2 P secs nanos : 0 < P1 -> 0 < P2 ->
+  e*Ms <= ep*(secs*P1) -> e*(Mq*G) <= ep*(nanos*P2) ->
+  e*(M*(P1*P2)) <= ep*((Ms*P2+Mq*P1)*P) ->
+  e*e*(M*G) <= ep*ep*((secs*G+nanos)*P).
+Proof.
+  intros H1 H2 A B C.
+  apply (N.mul_le_mono_pos_r _ _ (P1*P2)); [apply N.mul_pos_pos; assumption|].
+  assert (A' : e*Ms*(P2*G) <= ep*(secs*P1)*(P2*G)) by (apply N.mul_le_mono_r; exact A).
+  assert (B' : e*(Mq*G)*P1 <= ep*(nanos*P2)*P1) by (apply N.mul_le_mono_r; exact B).
+  assert (S : e*((Ms*P2+Mq*P1)*G) <= ep*((secs*G+nanos)*(P1*P2))).
+  { replace (e*((Ms*P2+Mq*P1)*G)) with (e*Ms*(P2*G) + e*(Mq*G)*P1) by ring.
+    replace (ep*((secs*G+nanos)*(P1*P2))) with (ep*(secs*P1)*(P2*G) + ep*(nanos*P2)*P1) by ring. lia. }
+  assert (C' : e*(M*(P1*P2))*(e*G) <= ep*((Ms*P2+Mq*P1)*P)*(e*G)) by (apply N.mul_le_mono_r; exact C).
+  assert (S' : e*((Ms*P2+Mq*P1)*G)*(ep*P) <= ep*((secs*G+nanos)*(P1*P2))*(ep*P)) by (apply N.mul_le_mono_r; exact S).
+  replace (e*e*(M*G)*(P1*P2)) with (e*(M*(P1*P2))*(e*G)) by ring.
+  replace (ep*ep*((secs*G+nanos)*P)*(P1*P2)) with (ep*((secs*G+nanos)*(P1*P2))*(ep*P)) by ring.
+  replace (ep*((Ms*P2+Mq*P1)*P)*(e*G)) with (e*((Ms*P2+Mq*P1)*G)*(ep*P)) in C' by ring.
+  lia.
+Qed.
+Lemma compose_lower e em G Ms Mq M P1 P2 P secs nanos : 0 < P1 -> 0 < P2 ->
+  em*(secs*P1) <= e*Ms -> em*(nanos*P2) <= e*(Mq*G) ->
+  em*((Ms*P2+Mq*P1)*P) <= e*(M*(P1*P2)) ->
+  em*em*((secs*G+nanos)*P) <= e*e*(M*G).
+Proof.
+  intros H1 H2 A B C.
+  apply (N.mul_le_mono_pos_r _ _ (P1*P2)); [apply N.mul_pos_pos; assumption|].
+  assert (A' : em*(secs*P1)*(P2*G) <= e*Ms*(P2*G)) by (apply N.mul_le_mono_r; exact A).
+  assert (B' : em*(nanos*P2)*P1 <= e*(Mq*G)*P1) by (apply N.mul_le_mono_r; exact B).
+  assert (S : em*((secs*G+nanos)*(P1*P2)) <= e*((Ms*P2+Mq*P1)*G)).
+  { replace (e*((Ms*P2+Mq*P1)*G)) with (e*Ms*(P2*G) + e*(Mq*G)*P1) by ring.
+    replace (em*((secs*G+nanos)*(P1*P2))) with (em*(secs*P1)*(P2*G) + em*(nanos*P2)*P1) by ring. lia. }
+  assert (C' : em*((Ms*P2+Mq*P1)*P)*(e*G) <= e*(M*(P1*P2))*(e*G)) by (apply N.mul_le_mono_r; exact C).
+  assert (S' : em*((secs*G+nanos)*(P1*P2))*(em*P) <= e*((Ms*P2+Mq*P1)*G)*(em*P)) by (apply N.mul_le_mono_r; exact S).
+  replace (e*e*(M*G)*(P1*P2)) with (e*(M*(P1*P2))*(e*G)) by ring.
+  replace (em*em*((secs*G+nanos)*P)*(P1*P2)) with (em*((secs*G+nanos)*(P1*P2))*(em*P)) by ring.
+  replace (em*((Ms*P2+Mq*P1)*P)*(e*G)) with (e*((Ms*P2+Mq*P1)*G)*(em*P)) in C' by ring.
+  lia.
+Qed.
+
+Definition G9 : N := 1000000000.
+
+(* |as_secs_f64 d - d| <= d * (2/2^53 + 1/2^106), in products: value = M / 2^K, d = T / 10^9 *)
+Lemma as_secs_f64_err secs nanos :
+  let x := as_secs_f64 secs nanos in
+  let T := secs * G9 + nanos in
+  E53 * E53 * (fst x * G9) <= (E53 + 1) * (E53 + 1) * (T * 2 ^ snd x) /\
+  (E53 - 1) * (E53 - 1) * (T * 2 ^ snd x) <= E53 * E53 * (fst x * G9).
+Proof.
+  cbv zeta. unfold as_secs_f64. change NANOS_PER_SEC with G9.
+  destruct (rn53_err secs 1 ltac:(lia)) as [S1 S2].
+  destruct (rn53_err nanos G9 ltac:(reflexivity)) as [Q1 Q2].
+  remember (rn53 secs 1) as s. remember (rn53 nanos G9) as q.
+  destruct s as [Ms Ks]. destruct q as [Mq Kq]. cbn [fst snd] in *.
+  rewrite N.mul_1_r in S1, S2.
+  assert (P1 : 0 < 2 ^ Ks) by (pose proof (N.pow_nonzero 2 Ks ltac:(lia)); lia).
+  assert (P2 : 0 < 2 ^ Kq) by (pose proof (N.pow_nonzero 2 Kq ltac:(lia)); lia).
+  assert (PC : 0 < 2 ^ (Ks + Kq)) by (pose proof (N.pow_nonzero 2 (Ks + Kq) ltac:(lia)); lia).
+  destruct (rn53_err (Ms * 2 ^ Kq + Mq * 2 ^ Ks) (2 ^ (Ks + Kq)) PC) as [X1 X2].
+  remember (rn53 (Ms * 2 ^ Kq + Mq * 2 ^ Ks) (2 ^ (Ks + Kq))) as x. destruct x as [M K]. cbn [fst snd] in *.
+  rewrite N.pow_add_r in X1, X2.
+  split.
+  - apply (compose_upper E53 (E53 + 1) G9 Ms Mq M (2 ^ Ks) (2 ^ Kq) (2 ^ K) secs nanos); assumption.
+  - apply (compose_lower E53 (E53 - 1) G9 Ms Mq M (2 ^ Ks) (2 ^ Kq) (2 ^ K) secs nanos); assumption.
+Qed.
+
+(* the rendered text reads back as the millisecond count it was made from *)
+Lemma pad3_spec r : r < 1000 ->
+  forallb is_digit (pad3 r) = true /\ dec_value (pad3 r) = r /\ length (pad3 r) = 3%nat.
+Proof.
+  intros H. unfold pad3, dec_value. cbn [dec_acc forallb length].
+  pose proof (N.div_mod r 100 ltac:(lia)). pose proof (N.mod_upper_bound r 100 ltac:(lia)).
+  pose proof (N.div_mod r 10 ltac:(lia)). pose proof (N.mod_upper_bound r 10 ltac:(lia)).
+  pose proof (N.div_mod (r / 10) 10 ltac:(lia)). pose proof (N.mod_upper_bound (r / 10) 10 ltac:(lia)).
+  assert (r / 100 = r / 10 / 10) by (rewrite N.div_div by lia; reflexivity).
+  assert (r / 100 < 10) by (apply N.div_lt_upper_bound; lia).
+  remember (r / 100) as a. remember (r / 10) as t. remember (t mod 10) as m. remember (r mod 10) as c.
+  unfold is_digit, in_range, digit_val. repeat split; lia.
+Qed.
+
+Lemma denote_time_render ms :
+  denote_time_ms (render_dec (ms / 1000) ++ [46] ++ pad3 (ms mod 1000)) = Some ms.
+Proof.
+  pose proof (N.mod_upper_bound ms 1000 ltac:(lia)) as R.
+  destruct (pad3_spec (ms mod 1000) R) as (D & V & L).
+  unfold denote_time_ms. cbn [app].
+  rewrite split_on_app by (apply render_dec_no; reflexivity).
+  rewrite split_on_no_sep by (apply digits_no; [exact D | reflexivity]).
+  rewrite all_digits_render_dec, dec_value_render_dec, V, L.
+  unfold all_digits. rewrite D. cbn [pad3 beq negb andb Nat.eqb].
+  pose proof (N.div_mod ms 1000 ltac:(lia)). f_equal. lia.
+Qed.
+
+Definition dur_in_domain (secs nanos : N) : Prop := secs < 2 ^ 64 /\ nanos < G9.
+
+(* Duration's Argument impl: the text is a millisecond count within half a millisecond of the exact
+   value, plus the relative precision of the double it passes through *)
+Theorem duration_close secs nanos : dur_in_domain secs nanos ->
+  exists ms, denote_time_ms (render_duration secs nanos) = Some ms /\ time_close secs nanos ms = true.
+Proof.
+  intros [Hs Hn]. unfold render_duration, fmt3.
+  destruct (as_secs_f64_err secs nanos) as [U L]. cbv zeta in U, L.
+  remember (as_secs_f64 secs nanos) as x. destruct x as [M K]. cbn [fst snd] in *.
+  assert (HP : 0 < 2 ^ K) by (pose proof (N.pow_nonzero 2 K ltac:(lia)); lia).
+  destruct (div_rne_spec (M * 1000) (2 ^ K) HP) as [R1 R2].
+  remember (div_rne (M * 1000) (2 ^ K)) as ms.
+  exists ms. split; [apply denote_time_render|].
+  unfold time_close, time_tolerance_ns. change 1000000000 with G9.
+  remember (secs * G9 + nanos) as T.
+  assert (HT : T < 2 ^ 94) by (subst T; unfold G9 in *; lia).
+  pose proof (N.div_mod T (2 ^ 52) ltac:(lia)) as DF. pose proof (N.mod_upper_bound T (2 ^ 52) ltac:(lia)) as RF.
+  remember (T / 2 ^ 52) as F. remember (T mod 2 ^ 52) as rF.
+  remember (2 ^ K) as P.
+  (* (2e+1) T <= e^2 (F+2), scaled by P *)
+  assert (L1 : (2 * E53 + 1) * (T * P) <= E53 * E53 * ((F + 2) * P)).
+  { replace ((2 * E53 + 1) * (T * P)) with ((2 * E53 + 1) * T * P) by ring.
+    replace (E53 * E53 * ((F + 2) * P)) with (E53 * E53 * (F + 2) * P) by ring.
+    apply N.mul_le_mono_r. unfold E53. lia. }
+  assert (C : forall a c, a * (E53 * E53 * P) <= c * (E53 * E53 * P) -> a <= c).
+  { intros a c H. apply (N.mul_le_mono_pos_r a c (E53 * E53 * P)); [|exact H].
+    apply N.mul_pos_pos; [reflexivity | exact HP]. }
+  remember (ms * P) as msP. remember (T * P) as TP.
+  assert (FP : (F + 2) * P = F * P + 2 * P) by ring. remember (F * P) as FP'.
+  apply andb_true_iff. split; apply N.leb_le; apply C.
+  - replace (ms * 1000000 * (E53 * E53 * P)) with (1000000 * (E53 * E53) * msP) by (subst msP; ring).
+    replace ((T + (500000 + F + 2)) * (E53 * E53 * P)) with (E53 * E53 * TP + E53 * E53 * (500000 * P) + E53 * E53 * ((F + 2) * P))
+      by (subst TP; ring).
+    unfold E53, G9 in *. lia.
+  - replace ((ms * 1000000 + (500000 + F + 2)) * (E53 * E53 * P))
+      with (1000000 * (E53 * E53) * msP + E53 * E53 * (500000 * P) + E53 * E53 * ((F + 2) * P)) by (subst msP; ring).
+    replace (T * (E53 * E53 * P)) with (E53 * E53 * TP) by (subst TP; ring).
+    unfold E53, G9 in *. lia.
+Qed.
